@@ -413,9 +413,14 @@ fn end_to_end(seed: u64, shard: u64, n: u64) -> Tally {
         let mut spliced = false;
         if r.chance(1, 5) {
             let q = case.wire.uri.iter().position(|c| *c == b'?').unwrap_or(case.wire.uri.len());
-            let start = match case.wire.uri.windows(3).position(|w| w == b"://") {
-                Some(k) => case.wire.uri[k + 3..q].iter().position(|c| *c == b'/').map(|x| x + k + 3),
-                None => Some(0),
+            // (absolute-form targets: the path starts after the authority; a "://" inside the query is no scheme)
+            let start = if case.wire.uri.first() == Some(&b'/') {
+                Some(0)
+            } else {
+                match case.wire.uri[..q].windows(3).position(|w| w == b"://") {
+                    Some(k) => case.wire.uri[k + 3..q].iter().position(|c| *c == b'/').map(|x| x + k + 3),
+                    None => Some(0),
+                }
             };
             if let Some(start) = start {
                 let slashes: Vec<usize> = (start..q).filter(|k| case.wire.uri[*k] == b'/').collect();
